@@ -66,6 +66,7 @@ type Plan struct {
 	Assume     []string
 	Gen        func(tier string, yield func(Case))
 	Workers    int  // 0 = NumCPU
+	Quiet      bool // discard what the code under test prints to os.Stdout while cases run
 	Procs      int  // >0: shard cases over this many worker processes (isolates process-global state); each runs Workers goroutines (default 1)
 	Exhaustive bool // set false by Gen through Cap()
 	Caps       []string
@@ -277,6 +278,12 @@ func Main(p *Plan, tier string, replayID string, seed int64) {
 			}
 		}()
 	}
+	realStdout := os.Stdout
+	if p.Quiet {
+		if dn, err := os.OpenFile(os.DevNull, os.O_WRONLY, 0); err == nil {
+			os.Stdout = dn
+		}
+	}
 	found := false
 	shardI, shardN := -1, 0
 	if sh := os.Getenv("VERIF_SHARD"); sh != "" {
@@ -307,6 +314,7 @@ func Main(p *Plan, tier string, replayID string, seed int64) {
 		close(ch)
 		wg.Wait()
 	}
+	os.Stdout = realStdout
 	for _, m := range merged {
 		caseCount += m.Cases
 		evals += m.Evals
